@@ -266,8 +266,8 @@ CHECKS.update({
              "generating parameters returned when started there on noise-free data).  The shared model object is given a "
              "history before the fit (mixed assignment styles, another loss object, a random binding then numbers).",
         design="5 C18, 3.9",
-        note="The optimiser is not modelled, so this is exploration of the configuration matrix, not a proof; quick tier runs one "
-             "configuration per model x class x start."),
+        note="The optimiser is not modelled, so this is exploration of the configuration matrix, not a proof; quick tier runs three "
+             "configurations per model x class x start."),
 })
 
 NOT_APPLICABLE = {
